@@ -245,7 +245,7 @@ func dK(c *Call) int { return c.K }
 func vec(name string, acc Access, n func(*Call) int) Operand {
 	return Operand{Name: name, Kind: Vector, Access: acc, Rows: n}
 }
-func mat(name string, kind Kind, acc Access, r, c func(*Call) int) Operand {
+func matOp(name string, kind Kind, acc Access, r, c func(*Call) int) Operand {
 	return Operand{Name: name, Kind: kind, Access: acc, Rows: r, Cols: c}
 }
 func sq(name string, kind Kind, acc Access, n func(*Call) int) Operand {
@@ -337,11 +337,11 @@ func buildRoutines() []*Routine {
 	// gemv: y = alpha·op(A)·x + beta·y, A m×n
 	add(&Routine{Base: "gemv", Level: 2, Methods: names("gemv", "SDCZ"), Wrapper: "Gemv",
 		Args: args("tA m n alpha A ldA X incX beta Y incY"), TransReal: transNTC, TransCmplx: transNTC,
-		Ops: []Operand{mat("A", General, In, dM, dN), vec("X", In, lenX), vec("Y", InOut, lenY)}})
+		Ops: []Operand{matOp("A", General, In, dM, dN), vec("X", In, lenX), vec("Y", InOut, lenY)}})
 	// gbmv: same with A an m×n band matrix
 	add(&Routine{Base: "gbmv", Level: 2, Methods: names("gbmv", "SDCZ"), Wrapper: "Gbmv",
 		Args: args("tA m n kl ku alpha A ldA X incX beta Y incY"), TransReal: transNTC, TransCmplx: transNTC,
-		Ops: []Operand{mat("A", GenBand, In, dM, dN), vec("X", In, lenX), vec("Y", InOut, lenY)}})
+		Ops: []Operand{matOp("A", GenBand, In, dM, dN), vec("X", In, lenX), vec("Y", InOut, lenY)}})
 
 	// trmv/tbmv/tpmv: x = op(A)·x, A triangular n×n
 	// trsv/tbsv/tpsv: solve op(A)·x = b, b passed in x
@@ -381,7 +381,7 @@ func buildRoutines() []*Routine {
 	}
 
 	// ger (real), geru: A += alpha·x·yᵀ; gerc: A += alpha·x·yᴴ; A m×n
-	gerOps := []Operand{vec("X", In, dM), vec("Y", In, dN), mat("A", General, InOut, dM, dN)}
+	gerOps := []Operand{vec("X", In, dM), vec("Y", In, dN), matOp("A", General, InOut, dM, dN)}
 	add(&Routine{Base: "ger", Level: 2, Methods: names("ger", "SD"), Wrapper: "Ger",
 		Args: args("m n alpha X incX Y incY A ldA"), Ops: gerOps})
 	add(&Routine{Base: "geru", Level: 2, Methods: names("geru", "CZ"), Wrapper: "Geru",
@@ -423,9 +423,9 @@ func buildRoutines() []*Routine {
 	add(&Routine{Base: "gemm", Level: 3, Methods: names("gemm", "SDCZ"), Wrapper: "Gemm",
 		Args: args("tA tB m n k alpha A ldA B ldB beta C ldC"), TransReal: transNTC, TransCmplx: transNTC,
 		Ops: []Operand{
-			mat("A", General, In, ifNoTransA(dM, dK), ifNoTransA(dK, dM)),
-			mat("B", General, In, ifNoTransB(dK, dN), ifNoTransB(dN, dK)),
-			mat("C", General, InOut, dM, dN)}})
+			matOp("A", General, In, ifNoTransA(dM, dK), ifNoTransA(dK, dM)),
+			matOp("B", General, In, ifNoTransB(dK, dN), ifNoTransB(dN, dK)),
+			matOp("C", General, InOut, dM, dN)}})
 	// symm/hemm: C = alpha·A·B + beta·C (Left, A m×m) or alpha·B·A + beta·C (Right, A n×n)
 	for _, v := range []struct {
 		base, precs, wr string
@@ -433,28 +433,28 @@ func buildRoutines() []*Routine {
 	}{{"symm", "SDCZ", "Symm", Sym}, {"hemm", "CZ", "Hemm", Herm}} {
 		add(&Routine{Base: v.base, Level: 3, Methods: names(v.base, v.precs), Wrapper: v.wr,
 			Args: args("side uplo m n alpha A ldA B ldB beta C ldC"),
-			Ops:  []Operand{sq("A", v.kind, In, ifLeft(dM, dN)), mat("B", General, In, dM, dN), mat("C", General, InOut, dM, dN)}})
+			Ops:  []Operand{sq("A", v.kind, In, ifLeft(dM, dN)), matOp("B", General, In, dM, dN), matOp("C", General, InOut, dM, dN)}})
 	}
 	// syrk: C = alpha·A·Aᵀ + beta·C (NoTrans, A n×k) or alpha·Aᵀ·A + beta·C (A k×n); triangle of C
 	// herk: same with ᴴ, alpha and beta real
 	akRows, akCols := ifNoTransA(dN, dK), ifNoTransA(dK, dN)
 	add(&Routine{Base: "syrk", Level: 3, Methods: names("syrk", "SDCZ"), Wrapper: "Syrk",
 		Args: args("uplo tA n k alpha A ldA beta C ldC"), TransReal: transNTC, TransCmplx: transNT,
-		Ops: []Operand{mat("A", General, In, akRows, akCols), sq("C", Sym, InOut, dN)}})
+		Ops: []Operand{matOp("A", General, In, akRows, akCols), sq("C", Sym, InOut, dN)}})
 	add(&Routine{Base: "herk", Level: 3, Methods: names("herk", "CZ"), Wrapper: "Herk",
 		Args: args("uplo tA n k alpha A ldA beta C ldC"), TransCmplx: transNC, AlphaReal: true, BetaReal: true,
-		Ops: []Operand{mat("A", General, In, akRows, akCols), sq("C", Herm, InOut, dN)}})
+		Ops: []Operand{matOp("A", General, In, akRows, akCols), sq("C", Herm, InOut, dN)}})
 	// syr2k: C = alpha·A·Bᵀ + alpha·B·Aᵀ + beta·C (NoTrans) or alpha·Aᵀ·B + alpha·Bᵀ·A + beta·C
 	// her2k: C = alpha·A·Bᴴ + conj(alpha)·B·Aᴴ + beta·C (NoTrans) or alpha·Aᴴ·B + conj(alpha)·Bᴴ·A + beta·C, beta real
 	add(&Routine{Base: "syr2k", Level: 3, Methods: names("syr2k", "SDCZ"), Wrapper: "Syr2k",
 		Args: args("uplo tA n k alpha A ldA B ldB beta C ldC"), TransReal: transNTC, TransCmplx: transNT,
-		Ops: []Operand{mat("A", General, In, akRows, akCols), mat("B", General, In, akRows, akCols), sq("C", Sym, InOut, dN)}})
+		Ops: []Operand{matOp("A", General, In, akRows, akCols), matOp("B", General, In, akRows, akCols), sq("C", Sym, InOut, dN)}})
 	add(&Routine{Base: "her2k", Level: 3, Methods: names("her2k", "CZ"), Wrapper: "Her2k",
 		Args: args("uplo tA n k alpha A ldA B ldB beta C ldC"), TransCmplx: transNC, BetaReal: true,
-		Ops: []Operand{mat("A", General, In, akRows, akCols), mat("B", General, In, akRows, akCols), sq("C", Herm, InOut, dN)}})
+		Ops: []Operand{matOp("A", General, In, akRows, akCols), matOp("B", General, In, akRows, akCols), sq("C", Herm, InOut, dN)}})
 	// trmm: B = alpha·op(A)·B (Left, A m×m) or alpha·B·op(A) (Right, A n×n)
 	// trsm: solve op(A)·X = alpha·B (Left) or X·op(A) = alpha·B (Right), X overwrites B
-	trOps := []Operand{sq("A", Tri, In, ifLeft(dM, dN)), mat("B", General, InOut, dM, dN)}
+	trOps := []Operand{sq("A", Tri, In, ifLeft(dM, dN)), matOp("B", General, InOut, dM, dN)}
 	add(&Routine{Base: "trmm", Level: 3, Methods: names("trmm", "SDCZ"), Wrapper: "Trmm",
 		Args: args("side uplo tA diag m n alpha A ldA B ldB"), TransReal: transNTC, TransCmplx: transNTC, Ops: trOps})
 	add(&Routine{Base: "trsm", Level: 3, Methods: names("trsm", "SDCZ"), Wrapper: "Trsm",
